@@ -70,6 +70,12 @@ def check(ctx):
     repo = ctx.repo
     docs = require_labels(SCREENING_LABELS)
     ctx.note("specification", {k: v[:160] for k, v in docs.items()})
+    ctx.rule("R13.10", "the edge centres at which the induced potential is evaluated are those of the current sites: a Mesh never pairs new site "
+                       "coordinates with the EdgeMesh of old ones (shared with C07 R07.10)", 2)
+    from .c07 import mesh_pairs_sites_and_edges
+    mesh_pairs_sites_and_edges(ctx, "R13.10", "the screening kernel sums K a / |r_i - r_j| between sites at their new position and edge centres at the old one (e.g. "
+                                              "after an in-place translation of a meshed device): the iteration converges on that far field, every step is accepted, "
+                                              "and the stored potential differs from the sum over the stored currents by order one")
     ctx.rule("R13.9", "the scales entering the screening prefactor (Device.K0, A0, Bc2, Lambda, coherence_length ...) are recomputed from the "
                       "layer on every access: none of the Device members the solver reads is memoised (the Layer is mutable)", 6)
     ctx.rule("R13.8", "the area weights handed to the kernel carry mu0/(4 pi) K0/A0 xi^2 in 1/length_units (shared with C08 R08.1)", 1)
